@@ -10,9 +10,12 @@ PROP_FILES = ['Props/C15.v']
 REQ = ['SkTT.Check.C15']
 
 
-def rand_fun(rng, d, mode):
+def rand_fun(rng, d, mode, indicator=False):
     """a random basis function of d coordinates; integer-exact families only in 'int' mode"""
     i = rng.randrange(d)
+    if indicator and rng.random() < 0.15:       # integer-valued family (returns an int array)
+        a = rng.choice([-2, -1, 0]) if mode == 'int' else rng.uniform(-1.5, 0.5)
+        return tdt.IndicatorFunction(i, a, a + (rng.randint(1, 3) if mode == 'int' else rng.uniform(0.3, 2)))
     fams = ['const', 'id', 'mono'] if mode == 'int' else ['const', 'id', 'mono', 'sin', 'cos', 'gauss', 'legendre', 'pgauss']
     f = rng.choice(fams)
     if f == 'const':
@@ -58,32 +61,38 @@ def gen_case(rng, mode):
     d = rng.randint(1, 3)
     m = rng.randint(1, 4)
     x = rand_x(rng, d, m, mode)
+    ityped = rng.random() < 0.2                 # integer-valued points handed over as an int64 array
+    if ityped:
+        xi = np.rint(x).astype(np.int64)
+        x = xi.astype(float)                    # the reference tables are computed from the float copy
     if kind in ('bd', 'single', 'gram'):
         p = rng.randint(1, 4)
-        phi = [[rand_fun(rng, d, mode) for _ in range(rng.randint(1, 3))] for _ in range(p)]
+        phi = [[rand_fun(rng, d, mode, indicator=True) for _ in range(rng.randint(1, 3))] for _ in range(p)]
         tabs = [np.array([[float(phi[i][k](x[:, j])) for j in range(m)] for k in range(len(phi[i]))]) for i in range(p)]
+        xarg = xi if ityped else x
         if kind == 'bd':
-            return dict(kind=kind, desc=dict(kind=kind, d=d, m=m, p=p, n=[len(l) for l in phi]), impl=lambda: tdt.basis_decomposition(x, phi), tabs=tabs, m=m,
+            return dict(kind=kind, desc=dict(kind=kind, d=d, m=m, p=p, n=[len(l) for l in phi]), impl=lambda: tdt.basis_decomposition(xarg, phi), tabs=tabs, m=m,
                         lit=lambda res: [1, [m, [table_lit(t) for t in tabs]], lib.tt_out_lit(res)])
         if kind == 'single':
             i = rng.randrange(p)
-            return dict(kind=kind, desc=dict(kind=kind, d=d, m=m, p=p, i=i), impl=lambda: tdt.basis_decomposition(x, phi, single_core=i), tabs=tabs, m=m, i=i,
+            return dict(kind=kind, desc=dict(kind=kind, d=d, m=m, p=p, i=i), impl=lambda: tdt.basis_decomposition(xarg, phi, single_core=i), tabs=tabs, m=m, i=i,
                         lit=lambda res: [2, [m, [table_lit(t) for t in tabs], i], lib.core_lit(res)])
         m2 = rng.randint(1, 4)
         x2 = rand_x(rng, d, m2, mode)
         tabs2 = [np.array([[float(phi[i][k](x2[:, j])) for j in range(m2)] for k in range(len(phi[i]))]) for i in range(p)]
-        return dict(kind=kind, desc=dict(kind=kind, d=d, m=m, m2=m2, p=p), impl=lambda: tdt.gram(x, x2, phi), tabs=tabs, tabs2=tabs2, m=m, m2=m2,
+        return dict(kind=kind, desc=dict(kind=kind, d=d, m=m, m2=m2, p=p), impl=lambda: tdt.gram(xarg, x2, phi), tabs=tabs, tabs2=tabs2, m=m, m2=m2,
                     lit=lambda res: [3, [m, m2, [table_lit(t) for t in tabs], [table_lit(t) for t in tabs2]], lib.mat_lit(res)])
     p = rng.randint(1, 3)
     phi = [rand_fun1(rng, mode) for _ in range(p)]
     sc = rng.choice([None, None, 'x'])
+    xarg = xi if ityped else x
     if kind == 'cm':
         tabs = [np.array([[float(phi[k](x[i, j])) for j in range(m)] for k in range(p)]) for i in range(d)]
         if sc is None:
-            return dict(kind=kind, desc=dict(kind=kind, d=d, m=m, p=p), impl=lambda: tdt.coordinate_major(x, phi), tabs=tabs, m=m,
+            return dict(kind=kind, desc=dict(kind=kind, d=d, m=m, p=p), impl=lambda: tdt.coordinate_major(xarg, phi), tabs=tabs, m=m,
                         lit=lambda res: [1, [m, [table_lit(t) for t in tabs]], lib.tt_out_lit(res)])
         i = rng.randrange(d)
-        return dict(kind='cm-single', desc=dict(kind=kind, d=d, m=m, p=p, i=i), impl=lambda: tdt.coordinate_major(x, phi, single_core=i), tabs=tabs, m=m, i=i,
+        return dict(kind='cm-single', desc=dict(kind=kind, d=d, m=m, p=p, i=i), impl=lambda: tdt.coordinate_major(xarg, phi, single_core=i), tabs=tabs, m=m, i=i,
                     lit=lambda res: [2, [m, [table_lit(t) for t in tabs], i], lib.core_lit(res)])
     add_one = rng.random() < 0.5
     tabs = []
@@ -91,10 +100,10 @@ def gen_case(rng, mode):
         rows = ([[1.0] * m] if add_one else []) + [[float(phi[i](x[k, j])) for j in range(m)] for k in range(d)]
         tabs.append(np.array(rows))
     if sc is None:
-        return dict(kind='fm' + ('+1' if add_one else ''), desc=dict(kind=kind, d=d, m=m, p=p, add_one=add_one), impl=lambda: tdt.function_major(x, phi, add_one=add_one), tabs=tabs, m=m,
+        return dict(kind='fm' + ('+1' if add_one else ''), desc=dict(kind=kind, d=d, m=m, p=p, add_one=add_one), impl=lambda: tdt.function_major(xarg, phi, add_one=add_one), tabs=tabs, m=m,
                     lit=lambda res: [1, [m, [table_lit(t) for t in tabs]], lib.tt_out_lit(res)])
     i = rng.randrange(p)
-    return dict(kind='fm-single', desc=dict(kind=kind, d=d, m=m, p=p, add_one=add_one, i=i), impl=lambda: tdt.function_major(x, phi, add_one=add_one, single_core=i), tabs=tabs, m=m, i=i,
+    return dict(kind='fm-single', desc=dict(kind=kind, d=d, m=m, p=p, add_one=add_one, i=i), impl=lambda: tdt.function_major(xarg, phi, add_one=add_one, single_core=i), tabs=tabs, m=m, i=i,
                 lit=lambda res: [2, [m, [table_lit(t) for t in tabs], i], lib.core_lit(res)])
 
 
@@ -145,6 +154,22 @@ def clear_ranks(b, lo=1e-12, hi=1e-3):
     return True
 
 
+def f26_witness():
+    """known finding F26, fixed input: three modes, the FIRST function of the last mode is an indicator that vanishes on five of
+    six snapshots; with the two functions of that mode listed in the other order hocur is exact"""
+    x = np.array([[-1.0, -0.6, -0.2, 0.2, 0.7, 1.1]])
+    phi = [[tdt.Identity(0), tdt.Sin(0, 1.0), tdt.Cos(0, 1.0)], [tdt.ConstantFunction(0), tdt.Identity(0)],
+           [tdt.IndicatorFunction(0, 0.5, 1.0), tdt.ConstantFunction(0)]]
+    try:
+        b = dense(tdt.basis_decomposition(x, phi).cores)
+        a = dense(tdt.hocur(x, phi, ranks=6, repeats=2, multiplier=10, progress=False).cores)
+    except Exception as e:
+        return 'raised %r' % (e,)
+    if a.shape != b.shape or not close(a, b, 1e-6):
+        return 'hocur with ranks >= true ranks does not reproduce the tensor (first function of a later mode vanishes on snapshots)'
+    return None
+
+
 def hocur_case(seed, dup=False):
     rng = random.Random(seed)
     np.random.seed(seed % (2 ** 31))
@@ -152,15 +177,21 @@ def hocur_case(seed, dup=False):
     m = rng.randint(2, 6)
     p = rng.randint(1, 3)
     x = rand_x(rng, d, m, 'float')
-    phi = [[rand_fun(rng, d, 'float') for _ in range(rng.randint(1, 3))] for _ in range(p)]
+    phi = [[rand_fun(rng, d, 'float', indicator=True) for _ in range(rng.randint(1, 3))] for _ in range(p)]
+    if rng.random() < 0.15:                     # integer-valued points typed int64
+        x = np.rint(x).astype(np.int64)
     if dup:          # targeted stream: an exactly repeated function in one mode and one function of large magnitude
         i = rng.randrange(p)
         phi[i].insert(rng.randrange(len(phi[i]) + 1), rng.choice(phi[i]))
         j = rng.randrange(p)
         phi[j][rng.randrange(len(phi[j]))] = tdt.Legendre(rng.randrange(d), rng.randint(2, 4), domain=rng.uniform(0.4, 0.8))
     desc = dict(kind='hocur', d=d, m=m, p=p, n=[len(l) for l in phi], dup=dup)
+    # F26: the initial column sets of hocur contain only the FIRST function of every mode k >= 2; if that function vanishes
+    # on some snapshot (IndicatorFunction, a zero of Identity/Monomial/Sin at an integer point), rank is lost for good
+    xf = np.asarray(x, dtype=float)
+    desc['first_function_vanishes'] = bool(p >= 3 and any(any(float(phi[k][0](xf[:, j])) == 0.0 for j in range(m)) for k in range(2, p)))
     try:
-        ref = tdt.basis_decomposition(x, phi)
+        ref = tdt.basis_decomposition(x.astype(float), phi)
         b = dense(ref.cores)
         if not clear_ranks(b.reshape([len(l) for l in phi] + [m])):
             return None, dict(desc, skipped='ill-conditioned')
@@ -175,7 +206,8 @@ def hocur_case(seed, dup=False):
     return None, desc
 
 
-HOCUR_CORPUS = [(11693263164621, False), (65410566293140, True), (80320946483796, True), (71834013612011, True), (174963491946254, True)]
+HOCUR_CORPUS = [(97303485180985, True), (238777432856892, True), (161680001258152, True), (85207489838058, True),      # F24
+                (160215742132725, False), (33188307809340, False), (109722824127410, False)]                             # F25
 
 
 def run(ctx):
@@ -231,7 +263,12 @@ def run(ctx):
         ctx.evaluations += 1
         ctx.count('op:hocur' + ('_dup' if dup else '') + (':skipped-ill-conditioned' if desc.get('skipped') else ''))
         if msg:
-            ctx.fail('hocur: ' + msg, {'gen': 'hocur_case', 'case_seed': cs, 'dup': dup, 'case': desc}, tags={'op': 'hocur'})
+            ctx.fail('hocur: ' + msg, {'gen': 'hocur_case', 'case_seed': cs, 'dup': dup, 'case': desc}, tags={'op': 'hocur', 'first_function_vanishes': desc.get('first_function_vanishes', False)})
+    msg = f26_witness()
+    ctx.side_cases += 1
+    ctx.evaluations += 1
+    if msg:
+        ctx.fail('hocur: ' + msg, {'gen': 'f26_witness'}, tags={'op': 'hocur', 'first_function_vanishes': True})
     return ctx.finish(level='proof', checker_cmd='make -C coq Props/C15.vo Check/C15.vo && coqc Props/C15.v', trusted=TRUSTED, explanation=RULE)
 
 
@@ -247,6 +284,10 @@ def replay(obj):
         case = gen_case(random.Random(r['case_seed']), r.get('mode', 'float'))
         msg, _ = judge(case)
         print('replay %s: %s' % (case['kind'], msg or 'OK (no failure)'))
+        return 1 if msg else 0
+    if r.get('gen') == 'f26_witness':
+        msg = f26_witness()
+        print('replay hocur witness: %s' % (msg or 'OK (no failure)'))
         return 1 if msg else 0
     if r.get('gen') == 'hocur_case':
         msg, desc = hocur_case(r['case_seed'], r.get('dup', False))
